@@ -1,6 +1,6 @@
 (** C26 — page tables behave as a per-process map with deterministic lookups.  Property theorems only. *)
 From Coq Require Import Permutation.
-From Akita Require Import Lib.Base C26.Model C26.Proofs.
+From Akita Require Import Lib.Base C26.Model C26.Proofs C26.Proofs2 C26.Proofs3 C26.Proofs4 C26.Proofs5.
 Local Open Scope N_scope.
 
 (** Every result of every operation of every history is independent of the order in which Go
@@ -28,3 +28,92 @@ Proof.
   split; [reflexivity|]. split; [rewrite A, B; discriminate|congruence].
 Qed.
 Print Assumptions c26_reverse_lookup_old_refuted.
+
+(** Histories: lists of (iteration oracle, operation).  [hist_ok]: every oracle is a permutation
+    and every hand-loaded checkpoint has the per-process shape SaveCheckpoint writes. *)
+
+(** The two structures of every process table stay consistent in every reachable state:
+    element ids are unique, every key of the vaddr map points to a live list element carrying
+    that vaddr and every element is indexed (so Find never meets a dangling element), pids of
+    the pid map are unique and every page sits in the table of its own process. *)
+Theorem c26_invariant : forall log2 h, hist_ok h -> wf_table (fst (run (tb_new log2) h)).
+Proof. intros log2 h H. apply (run_wf h (tb_new log2) (wf_new log2) H). Qed.
+Print Assumptions c26_invariant.
+
+(** Insert / update / remove / find agree with a map (process, vaddr) -> page over every
+    history: every result the map determines (Unit/Panic outcomes, found page or not-found,
+    load status) is the one the implementation model returns, where the map is threaded by
+    [spec_step] (insert: panic if bound else bind; remove/update: panic if unbound; find:
+    lookup of the page-aligned address; load: replace by the DTO's bindings). *)
+Theorem c26_refines_map : forall log2 h, hist_ok h ->
+  Forall2 res_ok (snd (run (tb_new log2) h)) (spec_run log2 (fun _ _ => None) (map snd h)).
+Proof. intros log2 h H. apply (run_refines h (tb_new log2) _ (wf_new log2) (abs_new log2) H). Qed.
+Print Assumptions c26_refines_map.
+
+(** ... and after the history the table's content IS that map (one-step form, any reachable table). *)
+Theorem c26_refines_map_step : forall log2 h o x, hist_ok h -> valid_oracle o -> op_ok x ->
+  let t := fst (run (tb_new log2) h) in
+  aeq (abs (fst (step o t x))) (fst (spec_step (tb_log2 t) (abs t) x)) /\
+  res_ok (snd (step o t x)) (snd (spec_step (tb_log2 t) (abs t) x)).
+Proof. intros log2 h o x H V Ok t. exact (step_refines o t x (c26_invariant log2 h H) V Ok). Qed.
+Print Assumptions c26_refines_map_step.
+
+(** Reverse lookup in any reachable table: a returned page has the requested physical address
+    and is bound in the map under its own (pid, vaddr); and some page is returned whenever the
+    map holds a page with that physical address. *)
+Theorem c26_reverse_sound : forall log2 h o pa, hist_ok h -> valid_oracle o ->
+  let t := fst (run (tb_new log2) h) in
+  (forall p, rev_lookup o t pa = Some p -> pg_paddr p = pa /\ abs t (pg_pid p) (pg_vaddr p) = Some p) /\
+  ((exists pid va p, abs t pid va = Some p /\ pg_paddr p = pa) -> exists q, rev_lookup o t pa = Some q).
+Proof.
+  intros log2 h o pa H V t. pose proof (c26_invariant log2 h H) as W. split.
+  - intros p Hp. apply (rev_sound o t pa p W Hp).
+  - apply (rev_complete o t pa W V).
+Qed.
+Print Assumptions c26_reverse_sound.
+
+(** Checkpoint round trip at any point of any history: loading the saved DTO into a freshly
+    built table succeeds, saving again gives the same DTO, and every result of every later
+    history (finds, reverse lookups, saves, panics ...) is the same as without the round trip. *)
+Theorem c26_checkpoint_roundtrip : forall log2 h1 h2 o, hist_ok h1 -> hist_ok h2 -> valid_oracle o ->
+  let t := fst (run (tb_new log2) h1) in
+  load (tb_log2 t) (save o t) (tb_new (tb_log2 t)) = Some (roundtrip o t) /\
+  save o (roundtrip o t) = save o t /\
+  snd (run (roundtrip o t) h2) = snd (run t h2).
+Proof.
+  intros log2 h1 h2 o H1 H2 V t. pose proof (c26_invariant log2 h1 H1) as W.
+  pose proof (roundtrip_wf o t W) as Wr. pose proof (roundtrip_teq o t V) as E.
+  split; [apply load_fresh|split].
+  - apply (teq_save o _ _ Wr W E V).
+  - apply (run_teq h2 _ _ Wr W E H2).
+Qed.
+Print Assumptions c26_checkpoint_roundtrip.
+
+(** Non-vacuity: a concrete history over three processes sharing a physical page, with a
+    panic, a create-on-find, a hand-loaded checkpoint and a round trip, satisfies [hist_ok];
+    its results are the expected ones. *)
+Definition demo_ops : list op :=
+  [OInsert (mk_page 3 20480 4096 4096 0 1); OInsert (mk_page 1 20480 8192 4096 1 1);
+   OInsert (mk_page 1 20480 8192 4096 1 1); OFind 9 77; ORev 20480; ORoundtrip;
+   OUpdate (mk_page 3 99 4096 4096 0 1); OFind 3 5000; ORemove 1 8192; ORev 20480;
+   OLoad 12 [(4, [mk_page 4 1 0 4096 0 0; mk_page 4 2 4096 4096 0 0])]; OFind 4 4097].
+Definition demo_hist : list (oracle * op) := map (fun x => (rev_oracle, x)) demo_ops.
+
+Example c26_nonvacuous :
+  hist_ok demo_hist /\
+  snd (run (tb_new 12) demo_hist) =
+  [RUnit; RUnit; RPanic; RFound None; RFound (Some (mk_page 1 20480 8192 4096 1 1));
+   RSaved 12 [(1, [mk_page 1 20480 8192 4096 1 1]); (3, [mk_page 3 20480 4096 4096 0 1]); (9, [])];
+   RUnit; RFound (Some (mk_page 3 99 4096 4096 0 1)); RUnit; RFound None; RLoaded true;
+   RFound (Some (mk_page 4 2 4096 4096 0 0))].
+Proof.
+  split; [|vm_compute; reflexivity].
+  apply Forall_forall. intros [o x] Hin. cbn [fst snd].
+  unfold demo_hist in Hin. apply in_map_iff in Hin. destruct Hin as [y [Heq Hy]]. inversion Heq; subst.
+  split; [apply rev_oracle_valid|].
+  unfold demo_ops in Hy. cbn [In] in Hy.
+  repeat (destruct Hy as [<-|Hy]; [try exact I|]); [|destruct Hy].
+  intros i ps [Hd|[]]. inversion Hd; subst. split.
+  - cbn. repeat constructor; cbn; intuition discriminate.
+  - intros p [<-|[<-|[]]]; reflexivity.
+Qed.
